@@ -53,3 +53,28 @@ package snappy
 //@   requires len(b) >= 4 && 0 <= n && n <= 0xffffffff
 //@   modifies elems(b[0:4])
 //@   ensures int(b[0])*16777216 + int(b[1])*65536 + int(b[2])*256 + int(b[3]) == n
+
+// io.Reader contract of the xerial reader: a chunk is decoded straight into the caller's buffer only if it fits in
+// len(dst), so Read never reports more bytes than the buffer it was given can hold.
+//@ func (*xerialReader).readFull
+//@   trusted io.ReadFull on the underlying reader plus byte accounting
+//@   ensures 0 <= result0 && result0 <= len(b)
+//@ func (*xerialReader).read
+//@   trusted one Read of the underlying reader plus byte accounting
+//@   ensures 0 <= result0 && result0 <= len(b)
+//@ func isXerialHeader
+//@   trusted compares the 16 header bytes with the xerial magic
+//@ func (*xerialReader).readChunk
+//@   option noframe
+//@   modifies heap
+//@   ensures result1 == nil ==> 0 <= result0 && result0 <= len(dst)
+//@   unproved make@"x.input = make([]byte, frame, align(frame, defaultBufferSize))" the xerial frame length comes from the stream and sizes the input buffer (up to 4 GiB); bounding it needs a limit the format does not define
+//@   unproved make@"b := make([]byte, len(x.input), 2*cap(x.input))" for an unframed stream the input buffer doubles for as long as the underlying reader produces data; it is bounded by the stream, not by the code
+//@   ensures x.offset == 0
+//@   loop 0 invariant len(x.input) <= cap(x.input) && cap(x.input) > 0
+//@ func (*xerialReader).Read
+//@   requires 0 <= x.offset
+//@   option noframe
+//@   modifies heap
+//@   ensures 0 <= result0 && result0 <= len(b) && 0 <= x.offset
+//@   loop 0 invariant 0 <= x.offset
